@@ -54,15 +54,18 @@ Print Assumptions C27_refine.
 
 (* lookup by primary key through entity e (E[pk], E.get) when the identity map already holds the object: loaded with its real class, or as
    an unloaded seed created for a reference typed cur.  The result is the object with its creation class iff that class is e or below
-   -- for whatever discriminator value (0 and '' included); for a seed: whenever e and the reference type lie on one line of descent *)
+   -- for whatever discriminator value (0 and '' included), also when e and the reference type are sibling branches of a diamond (fix 8097451) *)
 Theorem C27_lookup_loaded : forall s, valid s = true -> forall e real, find_in_cache s true e real false real = lookup_spec s e real.
 Proof. exact find_loaded. Qed.
 Print Assumptions C27_lookup_loaded.
-Theorem C27_lookup_seed_except_known : forall s, valid s = true -> forall e cur real, family s cur real ->
-  (issub s e cur = true \/ issub s cur e = true) ->
+Theorem C27_lookup_seed : forall s, valid s = true -> forall e cur real, family s cur real ->
   find_in_cache s true e cur true real = lookup_spec s e real.
 Proof. exact find_seed. Qed.
-Print Assumptions C27_lookup_seed_except_known.
+Print Assumptions C27_lookup_seed.
+(* items of a many-to-many collection typed as an ancestor class come out with their creation class *)
+Theorem C27_collection_item : forall s, valid s = true -> forall cur real, family s cur real -> collection_item_class s cur real = real.
+Proof. exact collection_item_refined. Qed.
+Print Assumptions C27_collection_item.
 
 (* reading a reference attribute (Attribute.get) hands out the object with its creation class, whether the value was already known or
    had to be fetched with attr.load because the owner itself was an unloaded placeholder (chains a.b.c through placeholders); the flag
